@@ -255,7 +255,8 @@ func (r *Run) Finish() int {
 			khit = append(khit, k.Witness)
 		}
 	}
-	// replay bundles
+	// replay bundles (those of earlier runs of this property are stale: remove them)
+	os.RemoveAll(filepath.Join(root, "replays", r.Prop))
 	maxPrint := 25
 	for i := range r.viol {
 		v := &r.viol[i]
